@@ -15,3 +15,5 @@ func VerifSetHooks(point func(what string), answer func(pool uintptr, n int) int
 func VerifRealSync() bool { return true }
 
 func VerifPoolHash() uint64 { return 0 }
+
+func VerifPoolDuplicates() (int, string) { return 0, "" }
